@@ -528,7 +528,9 @@ func c19Overwrite(c *Ctx, i int, r *gen.R) {
 	which := append([]string{"all"}, c19Builtin...)[i%(len(c19Builtin)+1)]
 	desc := map[string]interface{}{"built_in_names_overwritten_by_the_application": which}
 	c.Case = desc
-	out, err := exec.Command(c.Exe, "-aux", "c19overwrite", which).CombinedOutput()
+	var out []byte
+	var err error
+	waitingForChild(func() { out, err = exec.Command(c.Exe, "-aux", "c19overwrite", which).CombinedOutput() })
 	c.Rec.Eval(gen.Hash64("overwrite", which), true)
 	c.Rec.Count("overwrite_probes_in_child_processes", 1)
 	s := strings.TrimSpace(string(out))
